@@ -6,6 +6,7 @@
 #include "quill/sinks/Sink.h"
 
 #include <atomic>
+#include <functional>
 #include <mutex>
 #include <stdexcept>
 #include <string>
@@ -29,7 +30,7 @@ struct SinkEv
 {
   uint64_t g{0};
   uint32_t sink{0};
-  char kind{'w'}; // w write, f flush, d destroyed
+  char kind{'w'}; // w write, f flush, d destroyed, x write call that threw (throw_if)
   std::string logger;
   quill::LogLevel level{quill::LogLevel::None};
   std::string level_desc;
@@ -106,6 +107,7 @@ public:
   std::atomic<uint32_t> slow_us{0};
   std::atomic<bool> keep_stmt{false};
   std::atomic<uint64_t> writes{0}, flushes{0};
+  std::function<bool(std::string_view msg)> throw_if; // set before the statements are issued; a hit is recorded as kind 'x'
 
   void write_log(quill::MacroMetadata const* md, uint64_t ts, std::string_view thread_id, std::string_view, std::string const&,
                  std::string_view logger_name, quill::LogLevel level, std::string_view level_desc, std::string_view,
@@ -114,6 +116,17 @@ public:
     uint64_t const n = writes.fetch_add(1, std::memory_order_relaxed);
     if (static_cast<int64_t>(n) == throw_on_write.load(std::memory_order_relaxed)) throw SinkThrow{"scripted write failure sink " + std::to_string(_id)};
     if (uint32_t us = slow_us.load(std::memory_order_relaxed)) std::this_thread::sleep_for(std::chrono::microseconds(us));
+    if (throw_if && throw_if(msg))
+    {
+      SinkEv x;
+      x.g = ticket();
+      x.sink = _id;
+      x.kind = 'x';
+      x.level = level;
+      x.msg.assign(msg);
+      recorder().add(std::move(x));
+      throw SinkThrow{"scripted write failure (predicate) sink " + std::to_string(_id)};
+    }
     SinkEv e;
     e.g = ticket();
     e.sink = _id;
